@@ -413,6 +413,7 @@ def _group_subscripts(ctx):
             if isinstance(st, ast.Assign) and isinstance(st.value, ast.Call) and dotted(st.value.func) == 're.compile' \
                     and isinstance(st.targets[0], ast.Name) and is_unknown(env_.get(st.targets[0].id)):
                 incomplete.append(st.targets[0].id)
+    incomplete += [r['name'] for r in inv if r['rv'] is None]
     n = 0
     for fi in _parser_funcs(ctx):
         # match variables bound from a known regex
@@ -558,6 +559,14 @@ def _raises(ctx):
             if where.startswith('TractWriter'):
                 allowed = allowed | {'RuntimeError'}
             ok = typ in allowed
+            # re-raising, inside `except T`, the same T (a better message) adds no new exception
+            h = parent(r)
+            while h is not None and not isinstance(h, (ast.FunctionDef, ast.AsyncFunctionDef, ast.ExceptHandler)):
+                h = parent(h)
+            if isinstance(h, ast.ExceptHandler) and h.type is not None:
+                caught = {(dotted(t) or '').split('.')[-1] for t in (h.type.elts if isinstance(h.type, ast.Tuple) else [h.type])}
+                if exc is None or typ in caught:
+                    ok = True
             ctx.check(ok, 'EXC', f"{where}: raise {typ}", 'documented exception type',
                       f"`{norm(r)[:70]}` raises {typ}, which is not one of the documented rejection types "
                       f"{sorted(DOCUMENTED)}", key=f"EXC|{where}|raise|{typ}", where=common.loc(fi, r))
